@@ -28,7 +28,8 @@ RULE = ("one evaluation = one seeded scenario plus all of its enumerated fault v
         "before every read, and the three arrival timings of extra (typed ahead / between query and reply / split), "
         "reply immediate or delayed. Part B scenario: a history of renders, vertical content movements and "
         "get_cursor_vertical_diff calls; variants enumerated: a nested call from a SIGWINCH handler at each read "
-        "ordinal of each query (with and without a further movement), two nested calls, read faults. "
+        "ordinal of each query and between lines of window.py (with and without a further movement), two nested calls, "
+        "read faults of several OSError kinds, queries that fail with ValueError and continued use. "
         "distinct = distinct SHA-1 over the event logs of all variants of a scenario; non-trivial = extra bytes, a "
         "read fault, a nested call or a clamped movement occurred")
 STATE_DEF = ("A: (extra class: empty/keys/ends-in-ESC/ends-in-digits/ends-in-semicolon/has-lookalike, CSI kind, digits of row, "
